@@ -1153,6 +1153,23 @@ func (r *Resolver) answer(ctx context.Context, req, resp *dns.Msg, parentDS []dn
 		resp.Answer = dnsutil.FilterRRsToZone(resp.Answer, zone)
 	}
 
+	if targetMsg != nil && targetMsg.Rcode != dns.RcodeSuccess && targetMsg.Rcode != dns.RcodeNameError {
+		// The DNAME's target could not be resolved or failed validation.
+		// Splicing it in anyway produced a SERVFAIL that still carried the
+		// DNAME and the synthesised CNAME in its answer section and no
+		// extended error; a failing response on the path fails the whole
+		// question, and says why.
+		edeCode, edeText := dns.ExtendedErrorCodeOther, "DNAME target resolution failed: "+dns.RcodeToString[targetMsg.Rcode]
+		if ede := dnsutil.GetEDE(targetMsg); ede != nil {
+			edeCode, edeText = ede.InfoCode, ede.ExtraText
+		}
+		out := dnsutil.SetRcodeWithEDE(req, dns.RcodeServerFailure, isDO(req), edeCode, edeText)
+		if localErr := middleware.RequestLocalFailureForResponse(ctx, targetMsg); localErr != nil {
+			middleware.MarkRequestLocalFailureResponse(ctx, out, localErr)
+		}
+		return out, nil
+	}
+
 	if targetMsg != nil {
 		// Splice the target response into resp *after* DNSSEC check.
 		// The internal recursion already validated the target zone
